@@ -1,4 +1,5 @@
 import ErbiumModel.Lemmas.Pool
+import ErbiumModel.Generated.Dhcp
 /-! # C01 — DHCP never leases one address to two clients at the same time -/
 namespace Erbium.Props.C01
 open Erbium Erbium.Pool Erbium.Generated.Pool
@@ -92,5 +93,11 @@ example : Reach (grant (grant ex0 [1] 5 1000 (clamp 0 300 86400) []) [2] 6 1000 
   Reach.grant [2] (some 5) [5, 6] 6 .newAddress 0 1000 300 86400 [] 
     (Reach.grant [1] none [5, 6] 5 .newAddress 0 1000 300 86400 [] (Reach.init 1000) (by decide) (Nat.le_refl _))
     (by decide) (Nat.le_refl _)
+
+/-- **C01 (one packet at a time — the model's atomic step is the code's).** The histories the theorems quantify over
+    interleave *whole* packet handlings. That is what the code does: `handle_pkt` is an ordinary (non-`async`) function
+    taking the pool by exclusive reference, called with the guard of the pool's mutex, so no other task can touch the
+    lease table between the reads and the write of one handling (Rust's borrow rules, extracted shape). -/
+theorem C01_one_packet_at_a_time : Generated.Dhcp.handlePktExclusive = true := by decide
 
 end Erbium.Props.C01
